@@ -143,6 +143,120 @@ def known_match(known, **key):
             return e
     return None
 
+IG_RTOL = 1e-12     # ln Lambda^3: |impl - exact| <= IG_RTOL * (sum of the absolute values of the terms of the expression)
+CP_RTOL = 1e-12     # heat capacity computed directly vs exact polynomial
+CP_STATE_RTOL = 1e-8   # heat capacity of an ideal-gas State (second derivative of A) vs the direct one
+DIPPR_R = 8.31446261815324 * 1000.0
+JOBACK_R = 6.022140857 * 1.38064852
+QUANTITY_R = 8.31446261815324
+IG_T0 = 298.15
+
+
+def ig_scale(cs, t, R):
+    """sum of |terms| of (h(T)-h(T0) - T (s(T)-s(T0)))/(T R) + ln T, for the tolerance"""
+    import math
+    a = 0.0
+    for i, c in enumerate(cs):
+        a += abs(c) * (t ** (i + 1) + IG_T0 ** (i + 1)) / (i + 1)
+        if i >= 1:
+            a += t * abs(c) * (t ** i + IG_T0 ** i) / i
+    if cs:
+        a += t * abs(cs[0]) * abs(math.log(t / IG_T0))
+    return a / (t * R) + abs(math.log(t)) + 60.0
+
+
+def check_ideal(ctx, impl, ig_model, igj_model, listing):
+    """exact Coq model of the ideal-gas records vs the real models; returns statistics"""
+    import math
+    stats = {"ln_lambda3_comparisons": 0, "cp_comparisons": 0, "state_evaluations": 0, "joback_coefficient_comparisons": 0,
+             "worst_ln_lambda3_error_over_tolerance": 0.0, "samples": []}
+    ideal = impl.get("ideal") or {}
+    models = ideal.get("models", {})
+    for rel, m in models.items():
+        if "error" in m:
+            continue      # reported with the parse failure
+        kind = m["kind"]
+        model_rows = (ig_model if kind == "dippr" else igj_model).get(rel)
+        bad = []
+        if model_rows is None:
+            V.violation(ctx, "exact ideal-gas model of %s was not evaluated by Coq" % rel,
+                        {"broken": "correspondence: ideal-gas model", "file": rel}, found_input=False)
+            continue
+        trecs = listing.get(rel)
+        for idx, (row, mr) in enumerate(zip(m["rows"], model_rows)):
+            name = row["name"]
+            if not row.get("ok"):
+                bad.append({"record": name, "index": row["index"], "what": "model cannot be built", "error": row.get("error")})
+                continue
+            if kind == "dippr":
+                logc, pts = qval(mr[1]), mr[2]
+                cs = [float(v) for _, v in trecs[idx]["nums"]] if trecs else []
+                R, cp_factor, state_cp_factor = DIPPR_R, 1.0, 1e-3
+            else:
+                body = mr[1]
+                if not (isinstance(body, tuple) and body[0] == "Some"):
+                    bad.append({"record": name, "index": row["index"], "what": "exact model has no coefficients (segment missing)"})
+                    continue
+                coefs, logc, pts = body[1][0], qval(body[1][1]), body[1][2]
+                cs = [float(qval(c)) for c in coefs]
+                R, cp_factor, state_cp_factor = JOBACK_R, QUANTITY_R / JOBACK_R, 1.0
+                offs = [37.93, 0.21, 3.91e-4, 2.06e-7, 1e-10]
+                for k, (cm, b) in enumerate(zip(cs, row["coefs"])):
+                    stats["joback_coefficient_comparisons"] += 1
+                    got = bits_f(b)
+                    if not abs(got - cm) <= 1e-10 * (abs(cm) + offs[k]):
+                        bad.append({"record": name, "index": row["index"], "what": "assembled coefficient %s" % "abcde"[k],
+                                    "model": cm, "implementation": got})
+            by_t = {g["t"]: g for g in row["grid"]}
+            for tq, pt in zip(J.IG_CMP, pts):
+                t = float(tq)
+                g = by_t.get(t)
+                if g is None:
+                    continue
+                # Coq prints ((n, d), (n2, d2)) as (n, d, (n2, d2))
+                rat = Fraction(int(pt[0]), int(pt[1]))
+                cpm = float(qval(pt[2])) * cp_factor
+                off = math.log(t) if kind == "dippr" else math.log(t * 1.38064852e-23 / (1.0e5 * 1e-30))
+                exact = float(rat) + float(logc) * math.log(t / IG_T0) + off
+                got = bits_f(g["ln_lambda3"])
+                tol = IG_RTOL * ig_scale(cs, t, R)
+                stats["ln_lambda3_comparisons"] += 1
+                err = abs(got - exact)
+                if err == err and math.isfinite(got):
+                    stats["worst_ln_lambda3_error_over_tolerance"] = max(stats["worst_ln_lambda3_error_over_tolerance"], err / tol)
+                if not (math.isfinite(got) and err <= tol):
+                    bad.append({"record": name, "index": row["index"], "what": "ln_lambda3", "temperature": t, "exact_model": exact,
+                                "implementation": got, "tolerance": tol, "coefficients": cs})
+                gcp = bits_f(g["cp"])
+                stats["cp_comparisons"] += 1
+                if not (math.isfinite(gcp) and abs(gcp - cpm) <= CP_RTOL * max(abs(cpm), 1e-300) * 10):
+                    bad.append({"record": name, "index": row["index"], "what": "molar_isobaric_heat_capacity (direct)", "temperature": t,
+                                "exact_model": cpm, "implementation": gcp})
+                if len(stats["samples"]) < 3 and idx in (0, 7):
+                    stats["samples"].append({"file": rel, "record": name, "T": t, "ln_lambda3_exact": exact, "ln_lambda3_implementation": got,
+                                             "cp_exact": cpm, "cp_implementation": gcp})
+            # every grid temperature: everything finite, State-level heat capacity = direct one
+            for g in row["grid"]:
+                stats["state_evaluations"] += 1
+                vals = [bits_f(g["ln_lambda3"]), bits_f(g["cp"])] + ([bits_f(x) for x in g["state"]] if g.get("state") else [float("nan")])
+                if not all(math.isfinite(x) for x in vals):
+                    bad.append({"record": name, "index": row["index"], "what": "non-finite ideal-gas property", "temperature": g["t"],
+                                "ln_lambda3, cp, [cp, s, h of State]": vals})
+                elif not abs(vals[2] - vals[1] * state_cp_factor) <= CP_STATE_RTOL * abs(vals[2]):
+                    bad.append({"record": name, "index": row["index"], "what": "State heat capacity differs from the direct one",
+                                "temperature": g["t"], "state": vals[2], "direct": vals[1] * state_cp_factor})
+        if bad:
+            b = bad[0]
+            V.violation(ctx, "ideal-gas model of %d case(s) of %s is not the exact model / not finite, first: %s of %s%s: exact %s, implementation %s"
+                        % (len(bad), rel, b["what"], b["record"], (" at %s K" % b["temperature"]) if "temperature" in b else "",
+                           b.get("exact_model", b.get("model")), b.get("implementation", b.get("ln_lambda3, cp, [cp, s, h of State]", b.get("error")))),
+                        {"broken": "clause 'yields a physically usable model' for ideal-gas records: IdealGas::ln_lambda3 / heat capacity vs "
+                                   "the exact model (IdealGasC15.v: ig_rat, ig_log, cp)", "file": rel,
+                         "call": "%s -> IdealGas::ln_lambda3(T), molar_isobaric_heat_capacity(T), State::new_nvt(EquationOfState::ideal_gas(..), T, 1 m3, 1 mol)"
+                                 % ("Dippr::new_pure(record)" if kind == "dippr" else "Joback::from_segments(vec![chemical record], table, None)"),
+                         "failing": bad[:10], "distinct_records": sorted({x["record"] for x in bad})[:20]}, found_input=True)
+    return stats
+
 
 def run(ctx):
     known = V.load_known("C15")
@@ -262,6 +376,8 @@ def run(ctx):
     gen_dis = 0
     failed_checks = []
     gc_model = {}
+    ig_model = {}
+    igj_model = {}
     counts = {}
     for p in gen_files:
         r = res[p]
@@ -273,6 +389,10 @@ def run(ctx):
             counts[item[0]] = item[1]
         for item in tags.get("GC", []):
             gc_model[item[0]] = item[1]
+        for item in tags.get("IG", []):
+            ig_model[item[0]] = item[1]
+        for item in tags.get("IGJ", []):
+            igj_model[item[0]] = item[1]
         if r["rc"] == 0:
             gen_dis += n
             continue
@@ -385,6 +505,9 @@ def run(ctx):
                              "call": "PcSaftParameters::from_segments(vec![chemical record], segment table, binary)", "rtol": GC_RTOL,
                              "mismatches": gc_bad[:10]}, found_input=True)
 
+    # ---------------------------------------------------------------- ideal-gas models: exact model vs implementation
+    ig_stats = check_ideal(ctx, impl, ig_model, igj_model, {f["file"]: f.get("records") for f in tr["files"] if "records" in f})
+
     # ---------------------------------------------------------------- support search (partial clause; exploration)
     sup = impl.get("support") or {"rows": [], "candidates": 0}
     sup_fail = 0
@@ -451,6 +574,8 @@ def run(ctx):
         "gc_assembly_comparisons": gc_cmp,
         "gc_assembly_worst_relative_difference": gc_worst,
         "gc_assembly_rtol": GC_RTOL,
+        "ideal_gas_models": dict(ig_stats, temperature_grid_K=J.IG_GRID, comparison_temperatures_K=J.IG_CMP,
+                                 tolerances={"ln_lambda3": "%g * sum|terms|" % IG_RTOL, "cp_direct_rel": 10 * CP_RTOL, "cp_state_rel": CP_STATE_RTOL}),
         "support_search": {
             "level": "exploration (not counted among obligations)",
             "clause": "each pure PC-SAFT / SAFT-VR Mie / SAFT-VRQ Mie record has a critical point and a saturation curve with finite properties",
@@ -474,6 +599,8 @@ def run(ctx):
         "positive molar weight where one is stated (DIPPR records carry none; the model never reads it)",
         "a binary file accompanies: gross2002_binary -> gross2001+gross2002; held2014_binary -> held2014_w_permittivity_added; "
         "aasen2020_binary -> aasen2019 and hammer2023 (each); aasen2020_binary_fh2 -> aasen2019_fh2; rehner2023_{homo,hetero}_binary -> rehner2023_{homo,hetero}",
+        "ideal-gas records: usable = heat capacity positive on the grid 200..1000 K (proved on the data) and ln Lambda^3 / heat capacity of the "
+        "real model equal to the exact polynomial model at 200, 450, 1000 K and finite on the whole grid (correspondence)",
         "solver convergence (critical point, saturation curve) is not decided by proof; the support search is exploration",
         "floating-point round-off of the gc assembly is not modelled (exact rationals; compared with rtol %g)" % GC_RTOL,
     ])
